@@ -14,8 +14,10 @@ hist, nontrivial, scenario = lin.hist, lin.nontrivial, lin.scenario
 def gen_descs(g, tier):
     q = tier == "quick"
     out = []
-    for (cls, Rc, Rx, Dy, Dx) in lin.shapes_cond(g, tier, 40 if q else 600):
-        out.append(lin.gen_scn(g, "marg_t", cls=cls, Rc=Rc, Rx=Rx, Dy=Dy, Dx=Dx))
+    for i, (cls, Rc, Rx, Dy, Dx) in enumerate(lin.shapes_cond(g, tier, 40 if q else 600)):
+        # the fixed design (first 45 shapes) with a full AND a diagonal p(x) object, the random shapes alternate
+        for pdiag in ((False, True) if i < 45 else (bool(i % 2),)):
+            out.append(lin.gen_scn(g, "marg_t", cls=cls, Rc=Rc, Rx=Rx, Dy=Dy, Dx=Dx, pdiag=pdiag))
     return [C.J(d) for d in out]
 
 
